@@ -55,8 +55,8 @@ void h_addrttl(void)
       want++;
     }
   }
-  __CPROVER_assert(n == want && n <= req, "C18: never more array elements than the caller offered; none invented or dropped below the capacity");
-  __CPROVER_assert(a4[req].ttl == -77 && a6[req].ttl == -77, "C18: nothing is written beyond the capacity the caller offered");
+  __CPROVER_assert(n == want && n <= req, "C18/C02: never more array elements than the caller offered; none invented or dropped below the capacity");
+  __CPROVER_assert(a4[req].ttl == -77 && a6[req].ttl == -77, "C18/C02: nothing is written beyond the capacity the caller offered (memory safety of the legacy address parsers)");
 }
 
 #ifdef T_HOSTENT
